@@ -23,6 +23,11 @@ COQ_LABELS = ["A_values", "A_support", "A_dim", "B_values", "B_support", "B_dim"
 def generate(rng, tier):
     nt, nq = (60, 30) if tier == "quick" else (500, 250)
     cases = fc.fem_mesh_cases(rng, tier, nt, nq, far=True)
+    # a surface patch in nanometre units (coordinates ~1e-9, 4 * area ~1e-18, far below the machine epsilon: finding F27)
+    for k in range(2):
+        v, t = gm.grid(3, 2, rng, "smooth", "alt")
+        cases.append({"kind": "tria", "family": "nano_tria", "v": (np.array(v, dtype=float) * 1e-9).tolist(), "t": t,
+                      "lump": bool(k), "vdtype": "float64", "tdtype": "int64"})
     # strips of flat "cap" triangles (base 0.3, height h): valid, far from round-off, but with an obtuse angle close to 180 degrees
     for _ in range(6 if tier == "quick" else 40):
         N = rng.randint(2, 8)
